@@ -110,7 +110,8 @@ def graph(steps, pools=(), defaults=()):
     return {"steps": list(steps), "pools": [list(p) for p in pools], "defaults": list(defaults),
             "spell": []}
 
-SPELLINGS = [lambda p: "./" + p, lambda p: "zq/../" + p, lambda p: "./zq/.././" + p, lambda p: ".//" + p]
+SPELLINGS = [lambda p: "./" + p, lambda p: "zq/../" + p, lambda p: "./zq/.././" + p, lambda p: ".//" + p,
+             lambda p: ".\\" + p, lambda p: "zq\\..\\" + p]
 
 def add_spell(g, spelling, canonical):
     """Records that `spelling` was used for the file `canonical` somewhere in the scenario."""
